@@ -175,6 +175,37 @@ func judgeBlock(t *rapid.T, b *gen.Builder, parentRoot common.Hash, block *types
 		t.Fatalf("%s (height %v, %d txs, %d uncles): the sum of all balances grew by %v, scheduled issuance is %v (excess %v)",
 			what, block.Number(), len(block.Transactions()), len(block.Uncles()), delta, iss, new(big.Int).Sub(delta, iss))
 	}
+	if !o.selfdestruct && delta.Cmp(iss) < 0 && ev.Known(keyLostCredit) {
+		// the known shape, exactly: an account that sat EMPTY in the parent state was credited in this block,
+		// the live state shows the credit, the committed state does not, and the credits lost this way add up
+		// to the whole shortfall
+		lost := new(big.Int)
+		cands := map[common.Address]bool{block.Coinbase(): true}
+		for a := range ft.ValueTargets {
+			cands[a] = true
+		}
+		for _, tx := range block.Transactions() {
+			if tx.To() != nil {
+				cands[*tx.To()] = true
+			}
+		}
+		for _, u := range block.Uncles() {
+			cands[u.Coinbase] = true
+		}
+		for a := range cands {
+			pa := pre.Accts[gen.HashedAddr(a)]
+			if pa == nil || pa.Nonce != 0 || pa.Balance.Sign() != 0 || len(pa.Code) != 0 || len(pa.Storage) != 0 {
+				continue
+			}
+			if live, stored := statedb.GetBalance(a), post.BalanceOf(a); live.Cmp(stored) > 0 {
+				lost.Add(lost, new(big.Int).Sub(live, stored))
+			}
+		}
+		if lost.Sign() > 0 && new(big.Int).Add(delta, lost).Cmp(iss) == 0 {
+			ev.Excluded(keyLostCredit)
+			return append(labels, "known:lost-credit-to-preexisting-empty-account"), true
+		}
+	}
 	if !o.selfdestruct {
 		labels = append(labels, "exact-equality-checked")
 		if delta.Cmp(iss) != 0 {
